@@ -338,6 +338,9 @@ impl Universe {
     pub fn party_ops(&self) -> u64 {
         self.lock().party_ops
     }
+    pub fn all_ops(&self) -> u64 {
+        self.lock().all_ops
+    }
 }
 
 #[derive(Clone)]
